@@ -148,6 +148,8 @@ class Gen:
             elif k < 0.84 and nl:
                 ok = [l for l in range(nl) if all(x in internal or x in external for x in links[l])
                       and not all(x in external for x in links[l])]
+                if not ok and not invalid and r.random() < 0.8:
+                    continue
                 l = r.randrange(nl) if (invalid or not ok) else r.choice(ok)
                 delay = (1 if r.random() < 0.9 else 0) if l in present else (1 if r.random() < 0.1 else 0)
                 ops.append(["M", l, r.randint(0, 1), hx(self.val(1e-3)), hx(self.pos(-7, -3)), delay])
